@@ -62,6 +62,14 @@ Section Syntax.
     | Infix l _ r => S (size l + size r)
     end.
 
+  (** Nesting depth; a leaf has depth 0. *)
+  Fixpoint depth (e : expr L) : nat :=
+    match e with
+    | Num _ | Pi | Var _ | Addr _ _ => 0
+    | Fn _ a | Prefix _ a => S (depth a)
+    | Infix l _ r => S (Nat.max (depth l) (depth r))
+    end.
+
   (** Variables and address leaves in left-to-right (pre-order) order, with repetitions. *)
   Fixpoint vars (e : expr L) : list N :=
     match e with
